@@ -29,7 +29,9 @@ vars == <<doc, ntrees, kind>>
 NL == "\n"
 Alphabet == {"#NEXUS", "BEGIN", "END", ";", "=", ",", "[", "]", NL, "TAXA", "TREES", "CHARACTERS", "DATA", "FOO",
              "DIMENSIONS", "NTAX", "NCHAR", "TAXLABELS", "TREE", "TRANSLATE", "FORMAT", "DATATYPE", "MISSING", "GAP", "MATRIX",
-             "a", "b", "c", "3", "4", "dna", "?", "-", "ACGT", "(a,b,c)", "(1,2,3)", "t1"}
+             "a", "b", "c", "3", "4", "dna", "?", "-", "ACGT", "(a,b,c)", "(1,2,3)", "t1",
+             \* numbers a reader must not trust: the largest int64, one that overflows it, a negative one, zero
+             "9223372036854775807", "99999999999999999999", "-7", "0"}
 
 Taxa(withDims) ==
   <<"BEGIN", "TAXA", ";", NL>> \o (IF withDims THEN <<"DIMENSIONS", "NTAX", "=", "3", ";", NL>> ELSE <<>>)
@@ -40,8 +42,11 @@ Trees(translate, two) ==
   \o <<"TREE", "t1", "=", (IF translate THEN "(1,2,3)" ELSE "(a,b,c)"), ";", NL>>
   \o (IF two THEN <<"TREE", "t2", "=", "[", "a", "]", (IF translate THEN "(1,2,3)" ELSE "(a,b,c)"), ";", NL>> ELSE <<>>)
   \o <<"END", ";", NL>>
+\* (fmt = 4: a DATA-style DIMENSIONS command that also gives NTAX)
 Data(fmt) ==
-  <<"BEGIN", "CHARACTERS", ";", NL, "DIMENSIONS", "NCHAR", "=", "4", ";", NL>>
+  <<"BEGIN", "CHARACTERS", ";", NL>>
+  \o (IF fmt = 4 THEN <<"DIMENSIONS", "NTAX", "=", "3", "NCHAR", "=", "4", ";", NL>>
+                  ELSE <<"DIMENSIONS", "NCHAR", "=", "4", ";", NL>>)
   \o (CASE fmt = 1 -> <<"FORMAT", "DATATYPE", "=", "dna", "MISSING", "=", "*", "GAP", "=", "-", ";", NL>>
         [] fmt = 2 -> <<"FORMAT", "DATATYPE", "=", "dna", "FOO", "=", "a", ";", NL>>
         [] OTHER   -> <<>>)
@@ -55,7 +60,7 @@ Head0 == <<"#NEXUS", NL>>
 BaseDocs ==
   {[toks |-> Head0 \o Taxa(d) \o Trees(tr, two), n |-> IF two THEN 2 ELSE 1] : d \in BOOLEAN, tr \in BOOLEAN, two \in BOOLEAN}
   \cup {[toks |-> Head0 \o Comment \o Trees(FALSE, two) \o Unknown, n |-> IF two THEN 2 ELSE 1] : two \in BOOLEAN}
-  \cup {[toks |-> Head0 \o Taxa(TRUE) \o Data(f) \o Trees(FALSE, FALSE), n |-> 1] : f \in 1..3}
+  \cup {[toks |-> Head0 \o Taxa(TRUE) \o Data(f) \o Trees(FALSE, FALSE), n |-> 1] : f \in 1..4}
   \cup {[toks |-> Head0 \o Unknown \o Comment \o Taxa(FALSE), n |-> 0]}
 
 RemoveAt2(s, i) == SubSeq(s, 1, i - 1) \o SubSeq(s, i + 1, Len(s))
